@@ -14,7 +14,7 @@ namespace PanicBaseline
 
 def counts : List (String × String × Nat) :=
   [("src/delta.rs", "fatal", 1),
-   ("src/delta.rs", "index", 4),
+   ("src/delta.rs", "index", 3),
    ("src/handlers/diff_header.rs", "index", 11),
    ("src/handlers/diff_stat.rs", "unwrap", 3),
    ("src/handlers/hunk.rs", "fatal", 2),
